@@ -60,6 +60,13 @@ module Coq__1 = struct
 end
 include Coq__1
 
+(** val mul : nat -> nat -> nat **)
+
+let rec mul n0 m =
+  match n0 with
+  | O -> O
+  | S p -> add m (mul p m)
+
 (** val sub : nat -> nat -> nat **)
 
 let rec sub n0 m =
@@ -7026,6 +7033,17 @@ let json_Array =
 let json_Object =
   Zpos (XO (XO (XO (XO (XO XH)))))
 
+(** val json_minBufferSize : z **)
+
+let json_minBufferSize =
+  Zpos (XO (XO (XO (XO (XO (XO (XO (XO (XO (XO (XO (XO (XO (XO (XO
+    XH)))))))))))))))
+
+(** val json_minReadSize : z **)
+
+let json_minReadSize =
+  Zpos (XO (XO (XO (XO (XO (XO (XO (XO (XO (XO (XO (XO XH))))))))))))
+
 (** val json_sp : z **)
 
 let json_sp =
@@ -7071,7 +7089,7 @@ let json_ParseFlags_has flags f =
 (** val json_skipSpacesN : bytes -> bytes * z **)
 
 let json_skipSpacesN b =
-  let k1_ = fun _ -> ([], Z0) in
+  let k1_ = fun _ -> ((slice_from b (len b)), (len b)) in
   let rec loop2_ l3_ i4_ =
     match l3_ with
     | [] -> k1_ ()
@@ -12352,3 +12370,428 @@ let rec spec_enc d p t v =
           | PBinary -> be_bytes (S (S (S (S O)))) (len s)
           | PCompact -> uvarint (len s)) s
      | _ -> [])
+
+type rerr =
+| REOF
+| RUnexpectedEOF
+| RFail
+
+type script = (bytes * rerr option) list
+
+(** val read_once : rerr -> script -> z -> (bytes * rerr option) * script **)
+
+let read_once term s n0 =
+  match s with
+  | [] -> (([], (Some term)), [])
+  | p :: r ->
+    let (data, e) = p in
+    if Z.leb (len data) n0
+    then ((data, e), r)
+    else (((slice_to data n0), None), (((slice_from data n0), e) :: r))
+
+(** val read_full :
+    nat -> rerr -> script -> z -> bytes -> (bytes * rerr option) * script **)
+
+let rec read_full fuel term s n0 acc =
+  match fuel with
+  | O -> ((acc, (Some RFail)), s)
+  | S f ->
+    if Z.leb n0 Z0
+    then ((acc, None), s)
+    else let (p, s') = read_once term s n0 in
+         let (d, e) = p in
+         let acc0 = app acc d in
+         (match e with
+          | Some err ->
+            if Z.eqb (len d) n0
+            then ((acc0, None), s')
+            else ((acc0, (Some
+                   (match err with
+                    | REOF ->
+                      if Z.eqb (len acc0) Z0 then REOF else RUnexpectedEOF
+                    | _ -> err))), s')
+          | None -> read_full f term s' (Z.sub n0 (len d)) acc0)
+
+type dstate = { d_buffer : bytes; d_cap : z; d_remain : bytes; d_offset : 
+                z; d_err : rerr option; d_reader : script; d_term : rerr }
+
+(** val d_init : script -> rerr -> dstate **)
+
+let d_init s term =
+  { d_buffer = []; d_cap = Z0; d_remain = []; d_offset = Z0; d_err = None;
+    d_reader = s; d_term = term }
+
+type dresult =
+| DValue of bytes
+| DError of rerr
+| DSyntax
+| DOutOfFuel
+
+(** val is_num_kind : z -> bool **)
+
+let is_num_kind k =
+  (&&) (Z.leb (Zpos (XO (XO XH))) k) (Z.leb k (Zpos (XI (XI XH))))
+
+(** val read_value : nat -> nat -> z -> z -> dstate -> dresult * dstate **)
+
+let rec read_value fuel pfuel flags dflags st =
+  match fuel with
+  | O -> (DOutOfFuel, st)
+  | S f ->
+    let attempt =
+      if Z.eqb (len st.d_remain) Z0
+      then None
+      else (match json_decoder_parseValue pfuel dflags st.d_remain with
+            | Some p ->
+              let (p0, err) = p in
+              let (p1, k) = p0 in
+              let (v, r) = p1 in
+              (match err with
+               | Some _ ->
+                 if negb (Z.eqb (len r) Z0) then Some (DSyntax, st) else None
+               | None ->
+                 if (||)
+                      ((||) (negb (Z.eqb (len r) Z0))
+                        (match st.d_err with
+                         | Some r0 ->
+                           (match r0 with
+                            | REOF -> true
+                            | _ -> false)
+                         | None -> false)) (negb (is_num_kind k))
+                 then let (rem', n0) = json_skipSpacesN r in
+                      Some ((DValue v), { d_buffer = st.d_buffer; d_cap =
+                      st.d_cap; d_remain = rem'; d_offset =
+                      (Z.add (Z.add st.d_offset (len v)) n0); d_err =
+                      st.d_err; d_reader = st.d_reader; d_term = st.d_term })
+                 else None)
+            | None -> Some (DOutOfFuel, st))
+    in
+    (match attempt with
+     | Some r -> r
+     | None ->
+       (match st.d_err with
+        | Some e ->
+          ((match e with
+            | REOF ->
+              if negb (Z.eqb (len st.d_remain) Z0)
+              then DError RUnexpectedEOF
+              else DError REOF
+            | _ -> DError e), st)
+        | None ->
+          if Z.eqb st.d_cap Z0
+          then let buf = [] in
+               let cap =
+                 if Z.ltb (Z.sub json_minBufferSize (len buf))
+                      json_minReadSize
+                 then Z.mul (Zpos (XO XH)) json_minBufferSize
+                 else json_minBufferSize
+               in
+               let (p, rd0) =
+                 read_full (S (length st.d_reader)) st.d_term st.d_reader
+                   (Z.sub cap (len buf)) []
+               in
+               let (data, rerr0) = p in
+               let n0 = len data in
+               let buf0 = app buf data in
+               let err =
+                 if Z.gtb n0 Z0
+                 then None
+                 else (match rerr0 with
+                       | Some r ->
+                         (match r with
+                          | RUnexpectedEOF -> Some REOF
+                          | _ -> rerr0)
+                       | None -> rerr0)
+               in
+               let (rem', ns) = json_skipSpacesN buf0 in
+               let dflags' =
+                 match json_internalParseFlags pfuel rem' with
+                 | Some d -> Z.coq_lor flags d
+                 | None -> flags
+               in
+               read_value f pfuel flags dflags' { d_buffer = buf0; d_cap =
+                 cap; d_remain = rem'; d_offset = (Z.add st.d_offset ns);
+                 d_err = err; d_reader = rd0; d_term = st.d_term }
+          else let buf = st.d_remain in
+               let cap = st.d_cap in
+               let cap0 =
+                 if Z.ltb (Z.sub cap (len buf)) json_minReadSize
+                 then Z.mul (Zpos (XO XH)) cap
+                 else cap
+               in
+               let (p, rd0) =
+                 read_full (S (length st.d_reader)) st.d_term st.d_reader
+                   (Z.sub cap0 (len buf)) []
+               in
+               let (data, rerr0) = p in
+               let n0 = len data in
+               let buf0 = app buf data in
+               let err =
+                 if Z.gtb n0 Z0
+                 then None
+                 else (match rerr0 with
+                       | Some r ->
+                         (match r with
+                          | RUnexpectedEOF -> Some REOF
+                          | _ -> rerr0)
+                       | None -> rerr0)
+               in
+               let (rem', ns) = json_skipSpacesN buf0 in
+               let dflags' =
+                 match json_internalParseFlags pfuel rem' with
+                 | Some d -> Z.coq_lor flags d
+                 | None -> flags
+               in
+               read_value f pfuel flags dflags' { d_buffer = buf0; d_cap =
+                 cap0; d_remain = rem'; d_offset = (Z.add st.d_offset ns);
+                 d_err = err; d_reader = rd0; d_term = st.d_term }))
+
+(** val decode_all :
+    nat -> nat -> nat -> dstate -> bytes list -> z list -> (bytes
+    list * dresult) * z list **)
+
+let rec decode_all steps fuel pfuel st acc offs =
+  match steps with
+  | O -> (((rev acc), DOutOfFuel), (rev offs))
+  | S k ->
+    let (r, st') = read_value fuel pfuel Z0 Z0 st in
+    (match r with
+     | DValue v ->
+       decode_all k fuel pfuel st' (v :: acc) (st'.d_offset :: offs)
+     | _ -> (((rev acc), r), (rev offs)))
+
+type tstate = { t_delim : z; t_value : bytes; t_err : bool; t_depth : 
+                z; t_index : z; t_iskey : bool; t_iskey_next : bool;
+                t_json : bytes; t_stack : (z * z) list; t_kind : z }
+
+(** val t_init : bytes -> tstate **)
+
+let t_init b =
+  { t_delim = Z0; t_value = []; t_err = false; t_depth = Z0; t_index = Z0;
+    t_iskey = false; t_iskey_next = false; t_json = b; t_stack = []; t_kind =
+    Z0 }
+
+(** val stack_depth : (z * z) list -> z **)
+
+let stack_depth =
+  len
+
+(** val stack_index : (z * z) list -> z **)
+
+let stack_index s =
+  match rev s with
+  | [] -> Z0
+  | p :: _ -> let (_, n0) = p in Z.sub n0 (Zpos XH)
+
+(** val stack_top_is : (z * z) list -> z -> bool **)
+
+let stack_top_is s typ =
+  match rev s with
+  | [] -> false
+  | p :: _ -> let (t, _) = p in Z.eqb t typ
+
+(** val stack_pop : (z * z) list -> z -> (z * z) list option **)
+
+let stack_pop s expect =
+  match rev s with
+  | [] -> None
+  | p :: r -> let (t, _) = p in if Z.eqb t expect then Some (rev r) else None
+
+(** val stack_incr : (z * z) list -> (z * z) list **)
+
+let stack_incr s =
+  match rev s with
+  | [] -> []
+  | p :: r -> let (t, n0) = p in rev ((t, (Z.add n0 (Zpos XH))) :: r)
+
+(** val t_next : nat -> z -> tstate -> (bool * tstate) option **)
+
+let t_next pfuel d st =
+  if st.t_err
+  then Some (false, st)
+  else let j = json_skipSpaces st.t_json in
+       (match j with
+        | [] -> Some (false, (t_init []))
+        | c :: _ ->
+          let scalar = fun r ->
+            match r with
+            | Some p ->
+              let (p0, e) = p in
+              let (p1, k) = p0 in
+              let (v, rest) = p1 in
+              Some ({ t_delim = Z0; t_value = v; t_err = (negb (isnil e));
+              t_depth = st.t_depth; t_index = st.t_index; t_iskey =
+              st.t_iskey; t_iskey_next = st.t_iskey_next; t_json = rest;
+              t_stack = st.t_stack; t_kind = st.t_kind }, k)
+            | None -> None
+          in
+          let step =
+            if Z.eqb c (Zpos (XO (XI (XO (XO (XO XH))))))
+            then scalar (json_decoder_parseString pfuel d j)
+            else if Z.eqb c (Zpos (XO (XI (XI (XI (XO (XI XH)))))))
+                 then scalar (Some (json_decoder_parseNull d j))
+                 else if Z.eqb c (Zpos (XO (XO (XI (XO (XI (XI XH)))))))
+                      then scalar (Some (json_decoder_parseTrue d j))
+                      else if Z.eqb c (Zpos (XO (XI (XI (XO (XO (XI XH)))))))
+                           then scalar (Some (json_decoder_parseFalse d j))
+                           else if (||)
+                                     (Z.eqb c (Zpos (XI (XO (XI (XI (XO
+                                       XH)))))))
+                                     ((&&)
+                                       (Z.leb (Zpos (XO (XO (XO (XO (XI
+                                         XH)))))) c)
+                                       (Z.leb c (Zpos (XI (XO (XO (XI (XI
+                                         XH))))))))
+                                then scalar
+                                       (json_decoder_parseNumber pfuel d j)
+                                else if (||)
+                                          ((||)
+                                            ((||)
+                                              ((||)
+                                                ((||)
+                                                  (Z.eqb c (Zpos (XI (XI (XO
+                                                    (XI (XI (XI XH))))))))
+                                                  (Z.eqb c (Zpos (XI (XO (XI
+                                                    (XI (XI (XI XH)))))))))
+                                                (Z.eqb c (Zpos (XI (XI (XO
+                                                  (XI (XI (XO XH)))))))))
+                                              (Z.eqb c (Zpos (XI (XO (XI (XI
+                                                (XI (XO XH)))))))))
+                                            (Z.eqb c (Zpos (XO (XI (XO (XI
+                                              (XI XH))))))))
+                                          (Z.eqb c (Zpos (XO (XO (XI (XI (XO
+                                            XH)))))))
+                                     then Some ({ t_delim = c; t_value =
+                                            (c :: []); t_err = false;
+                                            t_depth = st.t_depth; t_index =
+                                            st.t_index; t_iskey = st.t_iskey;
+                                            t_iskey_next = st.t_iskey_next;
+                                            t_json =
+                                            (slice_from j (Zpos XH));
+                                            t_stack = st.t_stack; t_kind =
+                                            st.t_kind },
+                                            (if Z.eqb c (Zpos (XI (XI (XO (XI
+                                                  (XI (XI XH)))))))
+                                             then json_Object
+                                             else if Z.eqb c (Zpos (XI (XI
+                                                       (XO (XI (XI (XO
+                                                       XH)))))))
+                                                  then json_Array
+                                                  else Z0))
+                                     else Some ({ t_delim = Z0; t_value =
+                                            (c :: []); t_err = true;
+                                            t_depth = st.t_depth; t_index =
+                                            st.t_index; t_iskey = st.t_iskey;
+                                            t_iskey_next = st.t_iskey_next;
+                                            t_json =
+                                            (slice_from j (Zpos XH));
+                                            t_stack = st.t_stack; t_kind =
+                                            st.t_kind }, Z0)
+          in
+          (match step with
+           | Some p ->
+             let (s1, kind) = p in
+             let depth = stack_depth s1.t_stack in
+             let index = stack_index s1.t_stack in
+             let upd0 = fun delim iskey iskn stack err depth0 index0 ->
+               { t_delim = delim; t_value = s1.t_value; t_err = err;
+               t_depth = depth0; t_index = index0; t_iskey = iskey;
+               t_iskey_next = iskn; t_json = s1.t_json; t_stack = stack;
+               t_kind = kind }
+             in
+             let s2 =
+               if Z.eqb s1.t_delim Z0
+               then ((upd0 Z0 s1.t_iskey_next s1.t_iskey_next s1.t_stack
+                       s1.t_err depth index), false)
+               else let dl = s1.t_delim in
+                    if Z.eqb dl (Zpos (XI (XI (XO (XI (XI (XI XH)))))))
+                    then ((upd0 dl false true
+                            (app s1.t_stack (((Zpos XH), (Zpos XH)) :: []))
+                            s1.t_err depth index), false)
+                    else if Z.eqb dl (Zpos (XI (XI (XO (XI (XI (XO XH)))))))
+                         then ((upd0 dl false s1.t_iskey_next
+                                 (app s1.t_stack ((Z0, (Zpos XH)) :: []))
+                                 s1.t_err depth index), false)
+                         else if Z.eqb dl (Zpos (XI (XO (XI (XI (XI (XI
+                                   XH)))))))
+                              then (match stack_pop s1.t_stack (Zpos XH) with
+                                    | Some stk ->
+                                      ((upd0 dl false false stk false
+                                         (Z.sub depth (Zpos XH))
+                                         (stack_index stk)), false)
+                                    | None ->
+                                      ((upd0 dl false false s1.t_stack true
+                                         (Z.sub depth (Zpos XH))
+                                         (stack_index s1.t_stack)), false))
+                              else if Z.eqb dl (Zpos (XI (XO (XI (XI (XI (XO
+                                        XH)))))))
+                                   then (match stack_pop s1.t_stack Z0 with
+                                         | Some stk ->
+                                           ((upd0 dl false s1.t_iskey_next
+                                              stk false
+                                              (Z.sub depth (Zpos XH))
+                                              (stack_index stk)), false)
+                                         | None ->
+                                           ((upd0 dl false s1.t_iskey_next
+                                              s1.t_stack true
+                                              (Z.sub depth (Zpos XH))
+                                              (stack_index s1.t_stack)),
+                                             false))
+                                   else if Z.eqb dl (Zpos (XO (XI (XO (XI (XI
+                                             XH))))))
+                                        then ((upd0 dl false false s1.t_stack
+                                                s1.t_err depth index), false)
+                                        else if Z.eqb (len s1.t_stack) Z0
+                                             then ((upd0 dl false
+                                                     s1.t_iskey_next
+                                                     s1.t_stack true depth
+                                                     index), true)
+                                             else ((upd0 dl false
+                                                     (if stack_top_is
+                                                           s1.t_stack (Zpos
+                                                           XH)
+                                                      then true
+                                                      else s1.t_iskey_next)
+                                                     (stack_incr s1.t_stack)
+                                                     s1.t_err depth index),
+                                                    false)
+             in
+             let (s3, early) = s2 in
+             if early
+             then Some (false, s3)
+             else Some
+                    (((&&)
+                       ((||) (negb (Z.eqb s3.t_delim Z0))
+                         (negb (Z.eqb (len s3.t_value) Z0))) (negb s3.t_err)),
+                    s3)
+           | None -> None))
+
+type token = { k_value : bytes; k_delim : z; k_depth : z; k_index : z;
+               k_iskey : bool; k_kind : z; k_remaining : z }
+
+(** val t_run :
+    nat -> nat -> z -> tstate -> token list -> (token list * tstate) option **)
+
+let rec t_run fuel pfuel d st acc =
+  match fuel with
+  | O -> None
+  | S f ->
+    (match t_next pfuel d st with
+     | Some p ->
+       let (b, st') = p in
+       if b
+       then t_run f pfuel d st' ({ k_value = st'.t_value; k_delim =
+              st'.t_delim; k_depth = st'.t_depth; k_index = st'.t_index;
+              k_iskey = st'.t_iskey; k_kind = st'.t_kind; k_remaining =
+              (len st'.t_json) } :: acc)
+       else Some ((rev acc), st')
+     | None -> None)
+
+(** val tokenize : bytes -> (token list * tstate) option **)
+
+let tokenize b =
+  let pfuel = add (mul (S (S O)) (length b)) (S (S (S (S (S (S (S (S O))))))))
+  in
+  (match json_internalParseFlags pfuel b with
+   | Some d -> t_run (S (length b)) pfuel d (t_init b) []
+   | None -> None)
